@@ -83,7 +83,7 @@ CLAIMS = {
     "C12": ("6 theorems (ValidaProofs/C12.lean): to_part_specs refuses modifiers / bound data, whatever it emits describes part by part an "
             "equal part (plain key / index rebuilt to exactly that part, or a bare part spec), refusal examples, round trip through "
             "from_part_specs with pairwise-equal parts, plain-key paths always serialise.", "DESIGN.md section 7 C12"),
-    "C13": ("21 theorems (ValidaProofs/C13.lean, C13Schema.lean, C13Behave.lean): `C13_schema_roundtrip_same_validation` - the rebuilt schema validates every document exactly as the original (verdict, failure and tested counts, cast data, every rule test; `validate rs' doc = validate rs doc`), `C13_roundtrip_same_test` for single rules, `C13_roundtrip_path_selection`; headline `C13_schema_roundtrip` (C13Schema.lean): a sorted schema whose rules have round-tripping conditions (C11), serialisable paths built by the constructor (C12) and casts from the library's table is written and parsed back to an equal schema (`schemaEq`), casts included; `C13_rule_roundtrip_eq` for single rules. Also: cast tables invert, shape of a serialised rule, cast round trip for both declared casts, "
+    "C13": ("31 theorems (ValidaProofs/C13.lean, C13Schema.lean, C13Behave.lean, C13FloatText.lean): `C13_float_text_round_trip` - the text `repr` writes for any double in fixed notation (what a YAML/JSON file holds) is read back by the float parser as exactly the same double, via `C13_float_digits_read_back` (the shortest-digits search only returns digit strings that round to the double, carry case included); `C13_schema_roundtrip_same_validation` - the rebuilt schema validates every document exactly as the original (verdict, failure and tested counts, cast data, every rule test; `validate rs' doc = validate rs doc`), `C13_roundtrip_same_test` for single rules, `C13_roundtrip_path_selection`; headline `C13_schema_roundtrip` (C13Schema.lean): a sorted schema whose rules have round-tripping conditions (C11), serialisable paths built by the constructor (C12) and casts from the library's table is written and parsed back to an equal schema (`schemaEq`), casts included; `C13_rule_roundtrip_eq` for single rules. Also: cast tables invert, shape of a serialised rule, cast round trip for both declared casts, "
             "rule round trip from the condition and path round trips, re-sorting a sorted rule list is the identity.",
             "DESIGN.md section 7 C13"),
     "C14": ("26 theorems (ValidaProofs/C14.lean, C14Behave.lean, C14Paths.lean): lifted to parts, paths and rules (`C14_path_same_selection`: the same paths select the same nodes with the same concrete paths through every entry point, and compare equal; `C14_rule_same_verdict`: the same rules give the same rule test on every document); headline `C14_same_behaviour` / `C14_same_is_equal` / `C14_same_equiv`: conditions that are the same up to the order of the operands of any combination and the order of the keyword arguments of any single condition (identical arguments) compare equal AND give the same booleans, error flags, stripped data and paths on all data, with and without paths (guard `filterUnpacksValuesOnly = true` read from the source; the attempt to prove this found defect D32). Also: condition / part / path / rule equality is reflexive, symmetric and transitive wherever "
